@@ -230,7 +230,61 @@ def c16d(ctx):
             ctx.fail(o2, up[0], "TinyLFU::unpin in %s does not depend on `the counter dropped from 1`: an entry with unflushed writes of a later batch becomes evictable" % fn)
 
 
+def c16e(ctx):
+    """The policy decides evictions from the per-region length counters, and finds a node's list through the region tag
+    kept in the key map.  Every list move in Lru must keep the three in step: unlink <-> `lens[from] -= 1`, push_head <->
+    `lens[to] += 1`, a move between regions <-> the tag of that key rewritten.  A lost decrement makes the policy evict
+    for ever, a lost increment lets a region grow without bound, a stale tag unlinks a node from the wrong list."""
+    prog = ctx.prog
+    o = ctx.ob("C16.e", "lru/region-counters-and-tags-follow-list-moves", "K8",
+               "in every Lru method: #unlink == #(lens -= 1), #push_head == #(lens += 1), and a method that both unlinks and pushes rewrites the key's region tag")
+    def lens_updates(b):
+        inc = dec = 0
+        for a in b.assigns(lambda st: any(e.startswith("f:lens") for e in st["lhs"][1])):
+            rv = a.node["rv"]
+            op_ = None
+            if rv["k"] == "bin":
+                op_ = rv["op"]
+            elif rv["k"] == "use":
+                pl = df.op_place(rv["op"])
+                if pl is not None:
+                    for d in b.assigns(lambda st, l=pl[0]: st["lhs"][0] == l and not st["lhs"][1] and st["rv"]["k"] == "bin"):
+                        op_ = d.node["rv"]["op"]
+            if op_ and op_.startswith("Add"):
+                inc += 1
+            elif op_ and op_.startswith("Sub"):
+                dec += 1
+            else:
+                return None
+        return inc, dec
+    n = 0
+    for b in prog.all_bodies(["qbice_storage"]):
+        if not b.file.endswith("tiny_lfu/lru.rs") or not b.name.startswith("Lru::"):
+            continue
+        un = len(b.calls_to(r"LruList::<K>::unlink$"))
+        ph = len(b.calls_to(r"LruList::<K>::push_head$"))
+        lu = lens_updates(b)
+        if not (un or ph or (lu and any(lu))):
+            continue
+        n += 1
+        ctx.touch(b)
+        if lu is None:
+            ctx.fail(o, Site(b, 0, 0), "%s writes a region length that is neither `+= 1` nor `-= 1`" % b.name)
+            continue
+        inc, dec = lu
+        if un != dec or ph != inc:
+            ctx.fail(o, Site(b, 0, 0), "%s: %d unlink / %d `lens -= 1`, %d push_head / %d `lens += 1` — the region lengths no longer mirror the lists" % (b.name, un, dec, ph, inc))
+        if un and ph:
+            tags = b.assigns(lambda st: st["lhs"][1] and st["lhs"][1][0] == "*" and "Region" in str(b.local_ty(st["lhs"][0])))
+            if len(tags) < min(un, ph):
+                ctx.fail(o, Site(b, 0, 0), "%s moves a node between regions without rewriting the region tag of its key" % b.name)
+    o.sites = n
+    if n < 5:
+        ctx.fail(o, "(program)", "expected >= 5 Lru methods that move nodes, found %d" % n)
+
+
 def run(ctx):
+    ctx.run_clause("C16.e", c16e)
     ctx.run_clause("C16.a", c16a)
     ctx.run_clause("C16.b", c16b)
     ctx.run_clause("C16.c", c16c)
